@@ -888,6 +888,21 @@ pub fn c13(tier: &str, seed: u64, ops: Option<&[String]>) -> Report {
     use crate::sio::{ScriptReader, Term};
     use mqtt_proto::{v3, v5, Error, Protocol};
     let mut rep = Report::new("C13", "every generated valid v5 CONNECT into the v3 decoders and every v3.1/v3.1.1 CONNECT into the v5 decoders (blocking, async with reader position, poll with random chunking): UnexpectedProtocol naming the version found, no byte beyond name+level consumed by the async decoder, continuation with decode_with_protocol on the rest equals native decode; Protocol::new over 6 names x all 256 levels");
+    // "naming the version found": the rendered errors (and the versions' own labels) must tell the three versions
+    // apart — whatever the labels are
+    {
+        rep.cases += 1;
+        let all = [Protocol::V310, Protocol::V311, Protocol::V500];
+        for (i, a) in all.iter().enumerate() {
+            for b in all.iter().skip(i + 1) {
+                let (ea, eb) = (Error::UnexpectedProtocol(*a).to_string(), Error::UnexpectedProtocol(*b).to_string());
+                let (va, vb) = (v5::ErrorV5::Common(Error::UnexpectedProtocol(*a)).to_string(), v5::ErrorV5::Common(Error::UnexpectedProtocol(*b)).to_string());
+                if ea == eb || va == vb || a.to_string() == b.to_string() || format!("{:?}", a) == format!("{:?}", b) {
+                    rep.fail("error-text-does-not-name-version", format!("proto labels {:?} {:?}", a, b), format!("UnexpectedProtocol({:?}) renders as {:?} and UnexpectedProtocol({:?}) as {:?}: the message does not name the version found", a, ea, b, eb));
+                }
+            }
+        }
+    }
     let i3 = po::inputs::<V3>(tier, seed, ops, 0, 0, false);
     let i5 = po::inputs::<V5>(tier, seed.wrapping_add(1), ops, 0, 0, false);
     let mut rng = Rng::new(seed ^ 0x1313);
